@@ -21,7 +21,7 @@ from .. import rot
 
 PROPERTY = "C24"
 LEVEL = "fault_enumeration"
-BUDGET = {"quick": 96, "thorough": 1000}
+BUDGET = {"quick": 96, "thorough": 600}
 CHUNK = 1
 RUN_TIMEOUT_S = 1500
 MAX_DISCARD_FRACTION = 0.6
